@@ -32,6 +32,7 @@ type simMsg struct {
 	isResp   bool
 	resp     response
 	dup      bool // a re-delivery: its response goes nowhere
+	piped    bool // sent by the pipeline writer (sendEntries = true)
 	lit      string
 }
 
@@ -54,12 +55,15 @@ type simCluster struct {
 	reqs   map[*replication]*appendReq
 	net    []*simMsg
 	pipes  map[[2]uint64][]*simMsg // in-flight appends per (leader, follower), FIFO
+	await  map[[2]uint64]int       // append requests sent whose response has not come back (or been lost)
+	piping map[[2]uint64]bool      // replicate() is in its pipelining phase for this pair
 	upd    map[uint64][]replUpdate // updates taken off replUpdateCh, per leader
 	tasks  map[uint64][]*simTask
 	ntask  int
 	asked  map[uint64]map[uint64]bool // candidate -> voters already asked in this election
 	respCh map[uint64]chan rpcResponse
 	slow   bool
+	boot   map[uint64]Node
 	trace  []string
 	// ghost ledgers for the monitors
 	elected   map[uint64]uint64    // term -> node that became leader
@@ -104,7 +108,7 @@ func (c *simCluster) addNode(id uint64, bootstrap map[uint64]Node) error {
 	return nil
 }
 
-func (c *simCluster) options(n *simNode, newprev uint64) string {
+func (c *simCluster) options(n *simNode, newprev, newremovelte uint64) string {
 	var order []string
 	if n.cur == Leader || n.r.state == Leader {
 		ids := map[uint64]bool{}
@@ -126,8 +130,8 @@ func (c *simCluster) options(n *simNode, newprev uint64) string {
 			order = append(order, fmt.Sprint(id))
 		}
 	}
-	return fmt.Sprintf("(mkOptions %s %s %s %d [%s])", coqBool(n.r.shutdownOnRemove), coqBool(n.r.quorumWait != 0),
-		coqBool(n.r.promoteThreshold < time.Millisecond), newprev, strings.Join(order, ";"))
+	return fmt.Sprintf("(mkOptions %s %s %s %d %d [%s])", coqBool(n.r.shutdownOnRemove), coqBool(n.r.quorumWait != 0),
+		coqBool(n.r.promoteThreshold < time.Millisecond), newprev, newremovelte, strings.Join(order, ";"))
 }
 
 // ---- canonical task replies ----
@@ -348,6 +352,7 @@ func (c *simCluster) run(n *simNode, desc, ev string, fn func() (response, []str
 	pre := c.dump(n)
 	prevLog := n.r.log.PrevIndex()
 	preCommit := n.r.commitIndex
+	preRemoveLTE := n.l.removeLTE
 	var o stepObs
 	func() {
 		defer func() {
@@ -370,7 +375,11 @@ func (c *simCluster) run(n *simNode, desc, ev string, fn func() (response, []str
 	if newprev == prevLog {
 		newprev = 0
 	}
-	c.emit(n, desc, ev, pre, c.options(n, newprev), o)
+	newremovelte := n.l.removeLTE
+	if newremovelte == preRemoveLTE || ev != "ESnapTaken" {
+		newremovelte = 0
+	}
+	c.emit(n, desc, ev, pre, c.options(n, newprev, newremovelte), o)
 	if o.panicv != nil {
 		c.crash(n.r.nid, false)
 	} else {
@@ -400,8 +409,28 @@ func (c *simCluster) afterEvent(n *simNode, preCommit uint64, o *stepObs) {
 		}
 	} else {
 		c.upd[id] = nil
-		delete(c.pipes, [2]uint64{id, 0})
+		for k := range c.await {
+			if k[0] == id {
+				c.breakConn(k)
+			}
+		}
 	}
+}
+
+// breakConn: the connection between a leader and a follower is gone; replicate()
+// returns, the replication loop reconnects and starts probing again.
+func (c *simCluster) breakConn(k [2]uint64) {
+	delete(c.pipes, k)
+	delete(c.await, k)
+	delete(c.piping, k)
+	var keep []*simMsg
+	for _, m := range c.net {
+		if m.kind == rpcAppendEntries && !m.dup && ((m.from == k[0] && m.to == k[1] && !m.isResp) || (m.from == k[1] && m.to == k[0] && m.isResp)) {
+			continue
+		}
+		keep = append(keep, m)
+	}
+	c.net = keep
 }
 
 // ---- monitors (search half; independent of the model) ----
@@ -506,11 +535,15 @@ func (c *simCluster) monitors(n *simNode) {
 			cfg = r.configs.Committed
 		}
 		voters, have := 0, 0
+		detail := ""
 		for vid, vn := range cfg.Nodes {
 			if !vn.Voter {
 				continue
 			}
 			voters++
+			if v := c.nodes[vid]; v != nil {
+				detail += fmt.Sprintf(" [n%d dead=%v flushed=%d last=%d snap=%d]", vid, v.dead, log.VerifFlushed(v.r.log), v.r.lastLogIndex, v.r.snaps.index)
+			}
 			if v := c.nodes[vid]; v != nil && !v.dead && log.VerifFlushed(v.r.log) >= r.commitIndex {
 				e := &entry{}
 				if v.r.log.Contains(r.commitIndex) && v.r.storage.getEntry(r.commitIndex, e) == nil {
@@ -524,8 +557,8 @@ func (c *simCluster) monitors(n *simNode) {
 			}
 		}
 		if voters > 0 && have < voters/2+1 {
-			c.finding("C06", "commit-without-durable-majority", fmt.Sprintf("leader %d term %d commit %d: durable on %d of %d voters of config %d",
-				id, r.term, r.commitIndex, have, voters, cfg.Index))
+			c.finding("C06", "commit-without-durable-majority", fmt.Sprintf("leader %d term %d commit %d: durable on %d of %d voters of config %d%s",
+				id, r.term, r.commitIndex, have, voters, cfg.Index, detail))
 		}
 	}
 	// C11: only voters campaign or lead
@@ -544,7 +577,7 @@ func (c *simCluster) crash(id uint64, emit bool) {
 	if emit && !n.dead {
 		pre = c.dump(n)
 	}
-	opts := c.options(n, 0)
+	opts := c.options(n, 0, 0)
 	n.kill()
 	c.epoch[id]++
 	c.upd[id] = nil
@@ -609,8 +642,13 @@ func (c *simCluster) step() {
 			i := c.rnd.Intn(len(c.net))
 			m := c.net[i]
 			c.net = append(c.net[:i], c.net[i+1:]...)
-			if m.kind == rpcAppendEntries && !m.isResp {
-				delete(c.pipes, [2]uint64{m.from, m.to}) // the connection broke: the pipeline is gone
+			if m.kind == rpcAppendEntries && !m.dup {
+				// a lost append or append response means the connection broke: the pipeline is gone
+				if m.isResp {
+					c.breakConn([2]uint64{m.to, m.from})
+				} else {
+					c.breakConn([2]uint64{m.from, m.to})
+				}
 			}
 			c.note("lost %s", m.lit)
 		}
@@ -634,6 +672,10 @@ func (c *simCluster) step() {
 			n.disconnected(peer)
 			return nil, nil
 		})
+	case x < 47:
+		c.snapshotStep(n)
+	case x < 50 && n.cur != Leader:
+		c.nonLeaderTask(n)
 	default:
 		switch {
 		case n.cur == Candidate:
@@ -653,6 +695,109 @@ func (c *simCluster) step() {
 				})
 			}
 		}
+	}
+}
+
+// snapshotStep: one of the three phases of a TakeSnapshot task at any node.
+func (c *simCluster) snapshotStep(n *simNode) {
+	id := n.r.nid
+	switch {
+	case n.snapReq != nil && !n.snapReq.ran:
+		c.run(n, "snapshot goroutine runs", "ESnapRun", func() (response, []string) {
+			n.snapRun()
+			return nil, nil
+		})
+	case n.snapReq != nil && n.snapReq.ran:
+		c.run(n, "snapTaken", "ESnapTaken", func() (response, []string) {
+			n.snapTaken()
+			return nil, nil
+		})
+	default:
+		th := uint64(c.rnd.Intn(3))
+		t := TakeSnapshot(th).(takeSnapshot)
+		st := c.newTask(id, t, "takeSnapshot")
+		c.run(n, "takeSnapshot", fmt.Sprintf("(ETask (TTakeSnapshot %d %d))", st.id, th), func() (response, []string) {
+			n.takeSnapshot(t, st.id)
+			return nil, nil
+		})
+	}
+}
+
+// nonLeaderTask: what a follower or candidate does with client and admin tasks.
+func (c *simCluster) nonLeaderTask(n *simNode) {
+	id := n.r.nid
+	r := n.r
+	after := func() {
+		if r.state == Follower && n.f.electionAborted {
+			n.f.resetTimer()
+		}
+	}
+	switch c.rnd.Intn(4) {
+	case 0:
+		var head, tail *newEntry
+		var lits []string
+		for i := 0; i < 1+c.rnd.Intn(2); i++ {
+			var ft FSMTask
+			var lit string
+			switch c.rnd.Intn(3) {
+			case 0:
+				ft, lit = DirtyReadFSM(nil), fmt.Sprintf("(mkNewReq %d [] ", uint8(entryDirtyRead))
+			case 1:
+				ft, lit = ReadFSM(nil), fmt.Sprintf("(mkNewReq %d [] ", uint8(entryRead))
+			default:
+				p := c.payload()
+				ft, lit = UpdateFSM(p), fmt.Sprintf("(mkNewReq %d %s ", uint8(entryUpdate), coqBytes(p))
+			}
+			st := c.newTask(id, ft, "fsm")
+			lits = append(lits, lit+fmt.Sprint(st.id)+")")
+			ne := ft.newEntry()
+			if tail != nil {
+				tail.next, tail = ne, ne
+			} else {
+				head, tail = ne, ne
+			}
+		}
+		c.run(n, "client batch (non-leader)", "(ETask (TClient ["+strings.Join(lits, ";")+"]))", func() (response, []string) {
+			// the newEntryCh case of stateLoop for r.state != Leader
+			for ne := head; ne != nil; ne = ne.next {
+				if ne.typ == entryDirtyRead {
+					r.fsm.ch <- fsmDirtyRead{ne}
+				} else {
+					ne.reply(notLeaderError(r, false))
+				}
+			}
+			return nil, nil
+		})
+	case 1:
+		// every node of a cluster is bootstrapped with the same configuration (the user's obligation)
+		nodes := map[uint64]Node{}
+		for v, vn := range c.boot {
+			nodes[v] = vn
+		}
+		cfg := Config{Nodes: nodes}
+		t := ChangeConfig(cfg).(changeConfig)
+		st := c.newTask(id, t, "changeConfig")
+		c.run(n, "changeConfig (non-leader: bootstrap)", fmt.Sprintf("(ETask (TChangeConfig %d %s))", st.id, coqConfig(cfg)), func() (response, []string) {
+			r.executeTask(t)
+			after()
+			return nil, nil
+		})
+	case 2:
+		t := WaitForStableConfig().(waitForStableConfig)
+		st := c.newTask(id, t, "waitStable")
+		c.run(n, "waitStable (non-leader)", fmt.Sprintf("(ETask (TWaitStable %d))", st.id), func() (response, []string) {
+			r.executeTask(t)
+			after()
+			return nil, nil
+		})
+	case 3:
+		t := TransferLeadership(0, time.Hour).(transferLdr)
+		st := c.newTask(id, t, "transfer")
+		c.run(n, "transfer (non-leader)", fmt.Sprintf("(ETask (TTransfer %d 0))", st.id), func() (response, []string) {
+			r.executeTask(t)
+			after()
+			return nil, nil
+		})
 	}
 }
 
@@ -728,7 +873,7 @@ func (c *simCluster) deliver(i int) {
 			}
 		}
 		if pv == nil && res.resp != nil && !m.dup {
-			c.net = append(c.net, &simMsg{from: m.to, to: m.from, kind: m.kind, epoch: m.epoch, reqLast: m.reqLast, isResp: true, resp: res.resp,
+			c.net = append(c.net, &simMsg{from: m.to, to: m.from, kind: m.kind, epoch: m.epoch, reqLast: m.reqLast, isResp: true, resp: res.resp, piped: m.piped,
 				lit: fmt.Sprintf("resp %s %d", m.kind, res.resp.getResult())})
 		}
 		// a request may be delivered again later (a retry on a new connection carries the same bytes)
@@ -763,11 +908,25 @@ func (c *simCluster) deliver(i int) {
 			return
 		}
 		ar := m.resp.(*appendResp)
+		key := [2]uint64{m.to, m.from}
+		if c.await[key] > 0 {
+			c.await[key]--
+		}
+		if m.piped && ar.result != success && ar.result != staleTerm {
+			// the pipeline reader: a non-success response ends the pipeline, the remaining
+			// responses are drained unread, and replicate() goes back to probing
+			c.breakConn(key)
+			c.note("pipeline %d->%d ended by result %d", m.to, m.from, ar.result)
+			return
+		}
 		ev := fmt.Sprintf("(ELeader (LFlrResp %d %d %d %d %d))", m.from, uint8(ar.result), ar.term, ar.lastLogIndex, m.reqLast)
 		c.run(dst, fmt.Sprintf("appendResp from %d", m.from), ev, func() (response, []string) {
 			_ = rp.onAppendEntriesResp(ar, m.reqLast)
 			return nil, c.drainUpdates(dst)
 		})
+		if !m.piped && dst.cur == Leader && dst.l.repls[m.from] == rp && rp.matchIndex+1 == rp.nextIndex {
+			c.piping[key] = true
+		}
 	case rpcInstallSnap:
 		if dst.cur != Leader {
 			return
@@ -928,14 +1087,14 @@ func (c *simCluster) leaderStep(n *simNode) {
 			return
 		}
 		key := [2]uint64{id, fid}
-		probing := rp.matchIndex+1 != rp.nextIndex
-		if probing && len(c.pipes[key]) > 0 {
+		// replicate(): lock-step probes until matchIndex+1 == nextIndex, then a pipeline
+		if !c.piping[key] && c.await[key] > 0 {
 			return // a probe waits for its response
 		}
-		if len(c.pipes[key]) >= 3 {
+		if c.await[key] >= 3 {
 			return
 		}
-		sendEntries := !probing
+		sendEntries := c.piping[key]
 		var wire []byte
 		var needSnap bool
 		pv := c.run(n, fmt.Sprintf("flr %d send entries=%v", fid, sendEntries), fmt.Sprintf("(ELeader (LFlrSend %d %s))", fid, coqBool(sendEntries)), func() (response, []string) {
@@ -983,8 +1142,10 @@ func (c *simCluster) leaderStep(n *simNode) {
 			es = append(es, e)
 		}
 		m.lit = "(EAppendReq " + coqAppendReq(q, es) + ")"
+		m.piped = sendEntries
 		c.net = append(c.net, m)
 		c.pipes[key] = append(c.pipes[key], m)
+		c.await[key]++
 	case x < 78:
 		c.changeConfig(n)
 	case x < 81:
@@ -1026,7 +1187,7 @@ func (c *simCluster) leaderStep(n *simNode) {
 		u := replUpdate{&rp.status, noContact{time.Time{}, nil}}
 		if down {
 			u = replUpdate{&rp.status, noContact{time.Now(), errSimAbort}}
-			delete(c.pipes, [2]uint64{id, fid})
+			c.breakConn([2]uint64{id, fid})
 		}
 		c.upd[id] = append(c.upd[id], u)
 	}
@@ -1189,7 +1350,7 @@ func clusterMain(args []string) int {
 	var errs []string
 	for s := 0; s < nseq; s++ {
 		c := &simCluster{rnd: rnd, w: w, base: simTempDir(out, "cl"), opt: simOptions(1024), nodes: map[uint64]*simNode{}, dirs: map[uint64]string{},
-			epoch: map[uint64]int{}, reqs: map[*replication]*appendReq{}, pipes: map[[2]uint64][]*simMsg{}, upd: map[uint64][]replUpdate{},
+			epoch: map[uint64]int{}, reqs: map[*replication]*appendReq{}, pipes: map[[2]uint64][]*simMsg{}, await: map[[2]uint64]int{}, piping: map[[2]uint64]bool{}, upd: map[uint64][]replUpdate{},
 			tasks: map[uint64][]*simTask{}, asked: map[uint64]map[uint64]bool{}, respCh: map[uint64]chan rpcResponse{},
 			elected: map[uint64]uint64{}, entries: map[[2]uint64]string{}, committed: map[uint64]string{}, slow: s%4 == 3}
 		size := []int{1, 2, 3, 3, 3, 5}[rnd.Intn(6)]
@@ -1197,6 +1358,7 @@ func clusterMain(args []string) int {
 		for id := uint64(1); id <= uint64(size); id++ {
 			boot[id] = Node{ID: id, Addr: fmt.Sprintf("M%d:8888", id), Voter: true}
 		}
+		c.boot = boot
 		ok := true
 		for id := uint64(1); id <= uint64(size); id++ {
 			if err := c.addNode(id, boot); err != nil {
